@@ -38,7 +38,9 @@ removals pair up under implied conditions (early returns and the resource-held
 guard understood); C16.2 unlink_all passes the owner; C16.3 the network
 resource is released after every removal, unlink_all scans every match, and no
 removal depends on another removal's result; thorough: registrars of rules /
-ip-set entries / endpoint specs are the owner modules.
+ip-set entries / endpoint specs are the owner modules. Fourth round: C16.3
+rm_ip_set lets a failed removal escape, and every removal of the finish
+happens only while the network resource is still held.
 Does NOT decide host state equality over interleavings, nor that passthrough
 hosts resolve to the same addresses at start and finish (the source's own
 FIXME).
